@@ -93,6 +93,13 @@ class Run:
         print(f"HARNESS-ERROR property={self.pid} {what}", file=sys.stderr)
         self.harness_errors.append(what)
 
+    def job_failed(self, name, status, val):
+        """a job that timed out is inconclusive; a job that crashed is a harness error (never silently lost coverage)"""
+        if status == "crash":
+            self.harness_error(f"{name}: job crashed: {str(val)[:400]}")
+        else:
+            self.inconc(f"{name}: job {status}")
+
     def inconc(self, what):
         if len(self.inconclusive) < 200:
             self.inconclusive.append(what)
